@@ -101,8 +101,12 @@ CONFIGS = {
 CONFIGS["map-swift"] = _cfg(OPTS=dict(EP_METHD="PROJC;LWNAF;COMBS;INTER;SWIFT"))
 CONFIGS["map-basic"] = _cfg(OPTS=dict(EP_METHD="PROJC;LWNAF;COMBS;INTER;BASIC"))
 CONFIGS["p381-map-swift"] = _cfg(OPTS=dict(FP_PRIME=381, EP_METHD="PROJC;LWNAF;COMBS;INTER;SWIFT"))
-for _m in ("SH224", "SH384", "SH512", "B2S160", "B2S256"):
+for _m in ("SH224", "SH384", "SH512"):
     CONFIGS["md-" + _m.lower()] = _cfg(OPTS=dict(MD_METHD=_m))
+# md_xmd (RFC 9380 expansion) is only defined for the SHA-2 family, so the hash-to-curve modules do not link with a
+# BLAKE2s default hash: these two builds carry the integer, hash and block-cipher modules only
+for _m in ("B2S160", "B2S256"):
+    CONFIGS["md-" + _m.lower()] = _cfg(OPTS=dict(MD_METHD=_m, WITH="DV;BN;MD;BC"))
 for _m in (163, 233, 409, 571):
     CONFIGS["fb-%d" % _m] = _cfg(OPTS=dict(FB_POLYN=_m))
 for _b in (315, 317, 330, 354, 377, 382, 383, 446, 455, 508, 509, 510, 544, 569, 575, 638, 765, 766, 768):
